@@ -4,6 +4,7 @@ Proved (coq/props/C01.v): the Builder/rendering half - see the file.  Not proved
 tokenizers' output always spells the input (needs a per-route invariant of the 1.5k-line tokenizer);
 that part is validated here by the round-trip oracle on table-driven and generated inputs.
 """
+import headfrag
 import tokprops
 import vlib
 
@@ -15,6 +16,7 @@ def run(tier, seed):
                         "non-trivial = input contains markup characters or produced a non-Text token; distinct by (text, context, skip)",
                         builder_tie=True)
     _setters(c, tier, seed)
+    headfrag.run(c, tier, seed, ("roundtrip",))
     c.assumptions += ["tokenizer round trip is validated by testing, not proved (PARTIAL, see DESIGN.md C01)"]
     return c.finish()
 
